@@ -85,8 +85,7 @@ def resugar(e):
             return e
     mac = e.get("mac")
     if mac:
-        outer = mac[-1]
-        if outer == "vec" and k in ("call", "mcall"):
+        if "vec" in mac and k in ("call", "mcall"):
             arrs = [x for x in walk(e) if x.get("k") in ("array", "repeat", "vec", "vecrep") and x is not e]
             if arrs:
                 a = arrs[0]
@@ -98,8 +97,9 @@ def resugar(e):
             if k == "call" and e["f"].get("def", "").endswith("Vec::<T>::new"):
                 return {"k": "vec", "es": [], "ln": e.get("ln"), "ty": e.get("ty")}
             return e
-        if outer in ("panic", "unreachable", "unimplemented", "todo") and k in ("call", "mcall", "block", "match"):
-            return {"k": "panic", "name": outer, "ln": e.get("ln"), "ty": e.get("ty")}
+        for pm in ("panic", "unreachable", "unimplemented", "todo"):
+            if pm in mac and k in ("call", "mcall", "block", "match"):
+                return {"k": "panic", "name": pm, "ln": e.get("ln"), "ty": e.get("ty")}
     return e
 
 
